@@ -326,6 +326,12 @@ fn fallback_table(out: &mut EnumOut) {
 
 // ---- C10 names -------------------------------------------------------------------------------
 
+/// the P-256 base point, uncompressed (a valid remote static key for build attempts)
+const P256_BASE: [u8; 65] = [
+    0x04, 0x6b, 0x17, 0xd1, 0xf2, 0xe1, 0x2c, 0x42, 0x47, 0xf8, 0xbc, 0xe6, 0xe5, 0x63, 0xa4, 0x40, 0xf2, 0x77, 0x03, 0x7d, 0x81, 0x2d, 0xeb, 0x33, 0xa0, 0xf4, 0xa1, 0x39, 0x45, 0xd8, 0x98, 0xc2, 0x96,
+    0x4f, 0xe3, 0x42, 0xe2, 0xfe, 0x1a, 0x7f, 0x9b, 0x8e, 0xe7, 0xeb, 0x4a, 0x7c, 0x0f, 0x9e, 0x16, 0x2b, 0xce, 0x33, 0x57, 0x6b, 0x31, 0x5e, 0xce, 0xcb, 0xb6, 0x40, 0x68, 0x37, 0xbf, 0x51, 0xf5,
+];
+
 fn names(seed: u64, thorough: bool, out: &mut EnumOut) {
     // plain seeded input generation (the simulator adds nothing here; labelled as such)
     let n = if thorough { 400_000 } else { 40_000 };
@@ -333,11 +339,44 @@ fn names(seed: u64, thorough: bool, out: &mut EnumOut) {
     let bases = crate::refnoise::pattern_names();
     let mut distinct = std::collections::BTreeSet::new();
     let mut panics = 0;
-    for i in 0..n {
+    // complete part: every pattern with 1-3 psk modifiers of which one (at every list position)
+    // is out of range for the pattern; whatever parses is also built, in both roles
+    let mut listed: Vec<String> = vec![];
+    for base in bases.iter() {
+        let nmsg = crate::refnoise::Proto::parse(&format!("Noise_{base}_25519_ChaChaPoly_SHA256")).map(|p| p.msgs.len()).unwrap_or(1);
+        for k in 1..=3usize {
+            for badpos in 0..k {
+                for bad in [nmsg + 1, 9, 10] {
+                    let mut next_valid = 0;
+                    let mods: Vec<String> = (0..k)
+                        .map(|p| {
+                            if p == badpos {
+                                format!("psk{bad}")
+                            } else {
+                                next_valid += 1;
+                                format!("psk{}", next_valid - 1)
+                            }
+                        })
+                        .collect();
+                    listed.push(format!("Noise_{base}{}_25519_ChaChaPoly_SHA256", mods.join("+")));
+                }
+            }
+        }
+    }
+    let n_listed = listed.len();
+    for i in 0..n + n_listed {
         let (name, _) = crate::scen::gen_name(&mut rng, i as u64, None);
         let mut s = name.into_bytes();
-        let kind = rng.below(10);
+        let kind = if i >= n { 12 } else { rng.below(12) };
         match kind {
+            12 => s = listed[i - n].clone().into_bytes(),
+            10 | 11 => {
+                // 1-3 psk modifiers with indices in and out of range
+                let base = bases[rng.usize_below(38)];
+                let k = rng.range(1, 3);
+                let mods: Vec<String> = (0..k).map(|_| format!("psk{}", *rng.pick(&[0u32, 1, 2, 3, 4, 5, 9, 10, 12, 99]))).collect();
+                s = format!("Noise_{base}{}_25519_ChaChaPoly_SHA256", mods.join("+")).into_bytes();
+            },
             0 => {},
             1 => {
                 if !s.is_empty() {
@@ -372,7 +411,30 @@ fn names(seed: u64, thorough: bool, out: &mut EnumOut) {
             _ => s = Vec::new(),
         }
         let text = String::from_utf8_lossy(&s).to_string();
-        let r = std::panic::catch_unwind(|| text.parse::<snow::params::NoiseParams>().is_ok());
+        let r = std::panic::catch_unwind(|| match text.parse::<snow::params::NoiseParams>() {
+            Ok(_) => {
+                // a name that parses must also be buildable or refused - never panic (both roles,
+                // all keys and all ten PSK slots supplied)
+                let (k, psk) = ([7u8; 32], [9u8; 32]);
+                for initiator in [true, false] {
+                    let mut b = snow::Builder::new(text.parse().unwrap());
+                    for slot in 0..10u8 {
+                        b = match b.psk(slot, &psk) {
+                            Ok(b) => b,
+                            Err(_) => return true,
+                        };
+                    }
+                    let dhlen = if text.contains("_P256_") { 65 } else { 32 };
+                    let peer = if dhlen == 65 { P256_BASE.to_vec() } else { vec![9u8; 32] };
+                    let b = b.local_private_key(&k).and_then(|b| b.remote_public_key(&peer));
+                    if let Ok(b) = b {
+                        let _ = if initiator { b.build_initiator() } else { b.build_responder() };
+                    }
+                }
+                true
+            },
+            Err(_) => false,
+        });
         match r {
             Ok(ok) => {
                 distinct.insert((kind, ok, text.len().min(80)));
@@ -389,9 +451,9 @@ fn names(seed: u64, thorough: bool, out: &mut EnumOut) {
             out.samples.push(json!({"name_string": text}));
         }
     }
-    out.evaluations += n as u64;
+    out.evaluations += (n + n_listed) as u64;
     out.distinct += distinct.len() as u64;
-    out.summary.push(json!({"enumeration": "names (seeded input generation, not simulation)", "strings": n, "panics": panics}));
+    out.summary.push(json!({"enumeration": "names (seeded input generation, not simulation): parse; whatever parses is built in both roles with all keys and PSK slots supplied", "strings": n + n_listed, "listed_multi_psk_names": n_listed, "panics": panics}));
 }
 
 // ---- C16 real threads under shuttle ----------------------------------------------------------
@@ -431,16 +493,20 @@ fn stateless_pair_named(seed: u64, name: &str, backend: crate::seam::Backend) ->
 /// exists because neither shuttle (no scheduling point inside a call) nor Miri (cannot execute
 /// ring's C/asm) can reach a race inside a backend wrapper.
 fn stress_threads(seed: u64, thorough: bool, out: &mut EnumOut) {
-    use std::sync::atomic::{AtomicBool, Ordering};
-    let rounds = if thorough { 20_000 } else { 2_500 };
+    use std::sync::atomic::{AtomicUsize, Ordering};
+    const WORKERS: usize = 4;
+    const CALLS: usize = 4;
+    let rounds = if thorough { 16_000 } else { 2_000 };
     let mut total = 0u64;
+    // every cipher on every backend that has it
     for (name, backend) in [
         ("Noise_NN_25519_AESGCM_SHA256", crate::seam::Backend::RingFirst),
         ("Noise_NN_25519_ChaChaPoly_SHA256", crate::seam::Backend::RingFirst),
         ("Noise_NN_25519_AESGCM_BLAKE2s", crate::seam::Backend::Default),
+        ("Noise_NN_25519_ChaChaPoly_BLAKE2s", crate::seam::Backend::Default),
         ("Noise_NN_25519_XChaChaPoly_SHA512", crate::seam::Backend::Default),
     ] {
-        let (mut sa, _sb, mut ta, _tb) = match stateless_pair_named(mix(seed, 0x57E55), name, backend) {
+        let (mut sa, mut sb, mut ta, _tb) = match stateless_pair_named(mix(seed, 0x57E55), name, backend) {
             Some(x) => x,
             None => {
                 out.harness_errors.push(format!("stress: cannot set up {name}"));
@@ -448,40 +514,78 @@ fn stress_threads(seed: u64, thorough: bool, out: &mut EnumOut) {
             },
         };
         let mut bad: Option<String> = None;
-        let rounds = if backend == crate::seam::Backend::RingFirst { rounds * 2 } else { rounds / 2 };
+        let rounds = if backend == crate::seam::Backend::RingFirst { rounds * 2 } else { rounds };
+        // one job = one call with its expected result, all computed before the threads start
+        enum Job {
+            Write { nonce: u64, payload: Vec<u8>, expect: Vec<u8> },
+            Read { nonce: u64, msg: Vec<u8>, expect: Vec<u8>, outlen: usize },
+        }
         for round in 0..rounds {
-            // key change, then the first uses of the new key happen concurrently
-            sa.rekey_outgoing();
+            // key change on both ends (every 3rd round none), then the first uses of the new key
+            // happen concurrently: writes on one end, reads of distinct genuine messages on the other
             let d = ta.send_dir();
-            ta.rekey_dir(d);
-            let go = AtomicBool::new(false);
-            let st = &sa;
-            let model = &ta;
-            let results: Vec<bool> = std::thread::scope(|sc| {
-                let hs: Vec<_> = (0..4u64)
-                    .map(|t| {
-                        let go = &go;
+            if round % 3 != 2 {
+                sa.rekey_outgoing();
+                sb.rekey_incoming();
+                ta.rekey_dir(d);
+            }
+            let jobs: Vec<Vec<Job>> = (0..WORKERS)
+                .map(|t| {
+                    (0..CALLS)
+                        .map(|j| {
+                            let nonce = round as u64 * 64 + (t * 8 + j) as u64;
+                            let plen = [24usize, 600, 1040, 0, 4081][(t + j + round as usize) % 5];
+                            let payload = vec![(t * 16 + j + 1) as u8; plen];
+                            let ct = ta.encrypt_at(d, nonce, &payload);
+                            if (t + j + round as usize) % 2 == 0 {
+                                Job::Write { nonce, payload, expect: ct }
+                            } else {
+                                // exact fit, 1..15 bytes of slack (ring's detached path), message size, ample
+                                let outlen = plen + [0usize, 1, 15, 16, 64][(round as usize + j) % 5];
+                                Job::Read { nonce, msg: ct, expect: payload, outlen }
+                            }
+                        })
+                        .collect()
+                })
+                .collect();
+            let arrived = AtomicUsize::new(0);
+            let (wa, rb) = (&sa, &sb);
+            let results: Vec<Option<String>> = std::thread::scope(|sc| {
+                let hs: Vec<_> = jobs
+                    .iter()
+                    .map(|mine| {
+                        let arrived = &arrived;
                         sc.spawn(move || {
-                            let nonce = round as u64 * 8 + t;
-                            let payload = [t as u8 + 1; 24];
-                            let expect = model.encrypt_at(model.send_dir(), nonce, &payload);
-                            let mut buf = [0u8; 40];
-                            while !go.load(Ordering::Acquire) {
+                            let mut wbuf = vec![0u8; 4200];
+                            let mut rbuf = vec![0u8; 4200];
+                            // spin rendezvous: all workers leave within nanoseconds of each other
+                            arrived.fetch_add(1, Ordering::AcqRel);
+                            while arrived.load(Ordering::Acquire) < WORKERS {
                                 std::hint::spin_loop();
                             }
-                            match st.write_message(nonce, &payload, &mut buf) {
-                                Ok(n) => buf[..n] == expect[..],
-                                Err(_) => false,
+                            for job in mine {
+                                match job {
+                                    Job::Write { nonce, payload, expect } => match wa.write_message(*nonce, payload, &mut wbuf) {
+                                        Ok(n) if wbuf[..n] == expect[..] => {},
+                                        Ok(_) => return Some(format!("write nonce={nonce} len={}: bytes differ from the pure function of (key, nonce, payload)", payload.len())),
+                                        Err(e) => return Some(format!("write nonce={nonce} len={}: {e:?}", payload.len())),
+                                    },
+                                    Job::Read { nonce, msg, expect, outlen } => match rb.read_message(*nonce, msg, &mut rbuf[..*outlen]) {
+                                        Ok(n) if rbuf[..n] == expect[..] => {},
+                                        Ok(_) => return Some(format!("read nonce={nonce} len={} out={outlen}: wrong payload", msg.len())),
+                                        Err(e) => return Some(format!("read nonce={nonce} len={} out={outlen}: genuine message refused: {e:?}", msg.len())),
+                                    },
+                                }
                             }
+                            None
                         })
                     })
                     .collect();
-                go.store(true, Ordering::Release);
-                hs.into_iter().map(|h| h.join().unwrap_or(false)).collect()
+                hs.into_iter().map(|h| h.join().unwrap_or_else(|_| Some("panic in a concurrent call".into()))).collect()
             });
-            total += 4;
-            if results.iter().any(|ok| !ok) {
-                bad = Some(format!("{name} ({backend:?}) round {round}: a concurrent stateless write differs from the pure function of (key, nonce, payload)"));
+            total += (WORKERS * CALLS) as u64;
+            if let Some(r) = results.into_iter().flatten().next() {
+                bad = Some(format!("{name} ({backend:?}) round {round}: {r}"));
                 break;
             }
         }
@@ -494,7 +598,7 @@ fn stress_threads(seed: u64, thorough: bool, out: &mut EnumOut) {
     }
     out.evaluations += total;
     *out.probes.entry("os-thread-stress-calls").or_insert(0) += total;
-    out.summary.push(json!({"enumeration": "stateless OS-thread stress after key changes (supplementary, uncontrolled scheduler, not replayable; see DESIGN 12)", "calls": total}));
+    out.summary.push(json!({"enumeration": "stateless OS-thread stress: concurrent writes on one end and reads of distinct genuine messages on the other (exact-fit, slack and ample buffers) right after key changes; 3 ciphers x backends (supplementary, uncontrolled scheduler, not replayable; see DESIGN 12)", "calls": total}));
 }
 
 fn stateless_pair(seed: u64, idx: u64) -> Option<(snow::StatelessTransportState, snow::StatelessTransportState, crate::refnoise::RefTransport, crate::refnoise::RefTransport, String)> {
